@@ -474,6 +474,10 @@ func runLiteral(c LitCase, rec *h.Rec) error {
 		// rejected: clean (no panic - the harness turns a panic into a failure). A literal the generator built to be
 		// valid in every documented respect must not be rejected.
 		rec.Class("outcome=rejected")
+		if len(viol) == 0 && len(soft) == 0 && c.Mut == "tResidue" && c.LogQ == nil && c.LogP == nil {
+			// a prime t = 1 mod 16 below Q0/2 is a valid plaintext modulus whatever its residue modulo 2N (fewer slots)
+			return h.Failf("C19:bgv:rejected-valid:t-residue", "plaintext modulus t=%d (= %d mod %d, = 1 mod 16) rejected: %v", c.T, c.T%c.root(), c.root(), err)
+		}
 		if len(viol) == 0 && len(soft) == 0 && c.Mut == "none" && c.LogQ == nil && c.LogP == nil {
 			return h.Failf("C19:"+c.Scheme+":rejected-valid", "literal valid in every documented respect was rejected: %v", err)
 		}
